@@ -250,27 +250,35 @@ structure Adm where
   out : List Listener := []
   dropped : List (String × String) := []      -- (name, cause) for reporting
 
+/-- `checkIPPortProtocolConflicts`' switch: does a listener of protocol `proto` conflict with an
+existing entry of protocol `pr` on the same ip:port? -/
+def conflicts (proto pr : String) : Bool :=
+  if proto = "HTTP" || proto = "TCP" then pr = "HTTP" || pr = "TCP"
+  else if proto = "UDP" then pr = "UDP" else false
+
 def clashes (seen : List (String × Nat × String)) (ip : String) (port : Nat) (proto : String) : Bool :=
-  seen.any fun (i, p, pr) => i = ip && p = port &&
-    (if proto = "HTTP" || proto = "TCP" then pr = "HTTP" || pr = "TCP"
-     else if proto = "UDP" then pr = "UDP" else false)
+  seen.any fun (i, p, pr) => i = ip && p = port && conflicts proto pr
+
+/-- `validateListener`: the entry is acceptable on its own. -/
+def selfOk (forbidden : List Nat) (okIp4 okIp6 : String → Bool) (l : Listener) : Bool :=
+  l.name ≠ "tls-passthrough" && isDNS1035 l.name && !(forbidden.contains l.port) &&
+    decide (1 ≤ l.port ∧ l.port ≤ 65535) && (l.proto = "TCP" || l.proto = "UDP" || l.proto = "HTTP") &&
+    (l.v4 = "" || okIp4 l.v4) && (l.v6 = "" || okIp6 l.v6)
 
 /-- One listener entry. `okIp4`/`okIp6` are the verdicts of the k8s IP validators
 (parameters); `forbidden` is the reserved-port table handed to the validator. -/
 def admitOne (forbidden : List Nat) (okIp4 okIp6 : String → Bool) (a : Adm) (l : Listener) : Adm :=
-  let selfOk := l.name ≠ "tls-passthrough" && isDNS1035 l.name && !(forbidden.contains l.port) &&
-    decide (1 ≤ l.port ∧ l.port ≤ 65535) && (l.proto = "TCP" || l.proto = "UDP" || l.proto = "HTTP") &&
-    (l.v4 = "" || okIp4 l.v4) && (l.v6 = "" || okIp6 l.v6)
-  if !selfOk then { a with dropped := a.dropped ++ [(l.name, "invalid")] } else
+  if !(selfOk forbidden okIp4 okIp6 l) then { a with dropped := a.dropped ++ [(l.name, "invalid")] } else
   if a.names.contains l.name then { a with dropped := a.dropped ++ [(l.name, "dupname")] } else
-  let a := { a with names := l.name :: a.names }      -- the name is reserved before the ip:port checks
   let ip4 := ipOr l.v4 "0.0.0.0"
   let ip6 := ipOr l.v6 "::"
   if clashes a.v4 ip4 l.port l.proto then
     { a with v4 := a.v4 ++ [(ip4, l.port, l.proto)], dropped := a.dropped ++ [(l.name, "clash4")] } else
   if clashes a.v6 ip6 l.port l.proto then
     { a with v6 := a.v6 ++ [(ip6, l.port, l.proto)], dropped := a.dropped ++ [(l.name, "clash6")] } else
-  { a with v4 := a.v4 ++ [(ip4, l.port, l.proto)], v6 := a.v6 ++ [(ip6, l.port, l.proto)], out := a.out ++ [l] }
+  -- the name is reserved only once the entry is admitted (fix of S-C02-a)
+  { a with names := l.name :: a.names, v4 := a.v4 ++ [(ip4, l.port, l.proto)], v6 := a.v6 ++ [(ip6, l.port, l.proto)],
+           out := a.out ++ [l] }
 
 def admitAll (forbidden : List Nat) (okIp4 okIp6 : String → Bool) (ls : List Listener) : Adm :=
   ls.foldl (admitOne forbidden okIp4 okIp6) {}
@@ -569,43 +577,50 @@ def rebuildHosts (s : State) : State × List Change × List Problem :=
 def lkey (l h : String) : String := l ++ "|" ++ h
 
 structure LBuild where
-  lhosts : Map String := []                -- "listener|host" → TS resource key
+  lhosts : Map (String × Meta) := []       -- "listener|host" → (TS resource key, ObjectMeta) of the holder
   cfgs : Map TSCfg := []                   -- TS resource key → snapshot
+
+def LBuild.holderKey (b : LBuild) (lk : String) : Option String := (b.lhosts.get? lk).map (·.1)
 
 def LBuild.addWarning (b : LBuild) (k w : String) : LBuild :=
   match b.cfgs.get? k with
   | some c => { b with cfgs := b.cfgs.set k { c with warnings := c.warnings ++ [w] } }
   | none => b
 
+/-- The GlobalConfiguration listener a TransportServer refers to: same name *and* protocol. -/
+def listenerFor (gc : Option (List Listener)) (t : TS) : Option Listener :=
+  match gc with
+  | none => none
+  | some ls => ls.find? (fun l => t.lname = l.name && t.proto = l.proto)
+
+def tsKey (t : TS) : String := "TransportServer/" ++ t.md.key
+
+def tsCfgOf (gc : Option (List Listener)) (t : TS) : TSCfg :=
+  match listenerFor gc t with
+  | none => { md := t.md, host := t.host, lname := t.lname, proto := t.proto }
+  | some l => { md := t.md, host := t.host, lname := t.lname, proto := t.proto, port := l.port, v4 := l.v4, v6 := l.v6 }
+
+def lstep (gc : Option (List Listener)) (b : LBuild) (kv : String × TS) : LBuild :=
+  let t := kv.2
+  if t.proto = "TLS_PASSTHROUGH" then b else
+  let k := tsKey t
+  let b := { b with cfgs := b.cfgs.set k (tsCfgOf gc t) }
+  match listenerFor gc t with
+  | none => b
+  | some l =>
+    let lk := lkey l.name t.host
+    let w := "listener-taken:" ++ l.name ++ ":" ++ t.host
+    match b.lhosts.get? lk with
+    | none => { b with lhosts := b.lhosts.set lk (k, t.md) }
+    | some (hk, hmd) =>
+      if !(beats hmd t.md) then { (b.addWarning hk w) with lhosts := b.lhosts.set lk (k, t.md) }
+      else b.addWarning k w
+
 /-- `buildListenerHostsAndTSConfigurations`; `order` is the Go map iteration order. -/
-def buildListenerHosts (s : Objs) (order : List (String × TS)) : LBuild :=
-  order.foldl (fun (b : LBuild) (kv : String × TS) =>
-    let t := kv.2
-    if t.proto = "TLS_PASSTHROUGH" then b else
-    let k := "TransportServer/" ++ t.md.key
-    let c : TSCfg := { md := t.md, host := t.host, lname := t.lname, proto := t.proto }
-    let b := { b with cfgs := b.cfgs.set k c }
-    match s.gc with
-    | none => b
-    | some ls =>
-      match ls.find? (fun l => t.lname = l.name && t.proto = l.proto) with
-      | none => b
-      | some l =>
-        let c := { c with port := l.port, v4 := l.v4, v6 := l.v6 }
-        let b := { b with cfgs := b.cfgs.set k c }
-        let lk := lkey l.name t.host
-        match b.lhosts.get? lk with
-        | none => { b with lhosts := b.lhosts.set lk k }
-        | some hk =>
-          match b.cfgs.get? hk with
-          | none => { b with lhosts := b.lhosts.set lk k }
-          | some holder =>
-            let w := "listener-taken:" ++ l.name ++ ":" ++ t.host
-            if !(beats holder.md t.md) then { (b.addWarning hk w) with lhosts := b.lhosts.set lk k }
-            else b.addWarning k w) {}
+def buildListenerHosts (s : Objs) (order : List (String × TS)) : LBuild := order.foldl (lstep s.gc) {}
 
 def resolveLHosts (b : LBuild) : Map TSCfg :=
-  b.lhosts.filterMap fun (lk, k) => (b.cfgs.get? k).map (fun c => (lk, c))
+  b.lhosts.filterMap fun (lk, k) => (b.cfgs.get? k.1).map (fun c => (lk, c))
 
 def tsIsEqual (a b : TSCfg) : Bool := metaEq a.md b.md && a.port = b.port
 
